@@ -78,6 +78,11 @@ def make_config(root, kind="shipped", cls=None, **overrides):
 _mime_inited = None
 
 
+import mimetypes as _mimetypes_mod  # noqa: E402
+
+_ENC0 = dict(_mimetypes_mod.encodings_map)
+
+
 def init_mimetypes_once(config):
     """fileext.init() extends lists on every call; initialise once per (encoding, mimetypes) value."""
     global _mime_inited
@@ -85,6 +90,10 @@ def init_mimetypes_once(config):
     if _mime_inited == key:
         return
     pygopherd.fileext.typemap.clear()
+    # like a freshly started server process: the interpreter's own encoding table, untouched by an earlier configuration
+    import mimetypes as _mt
+    _mt.encodings_map.clear()
+    _mt.encodings_map.update(_ENC0)
     old = logger.__dict__.get("log")
     logger.log = lambda m: None
     try:
